@@ -199,6 +199,154 @@ def run(model: RepoModel, rep, tier: str):
                           f"site are never analysed nor recorded")
 
 
+    _r4_keyword_order(model, rep)
+    _r5_per_callee_accumulation(model, rep, st, gss)
+
+
+DU = "basics/stmt_def_use_analysis.py"
+
+
+def _r4_keyword_order(model: RepoModel, rep):
+    """Keyword arguments travel as a positional tail of used_symbols; producer and consumers pair them with the key names by
+    enumerating the keys of literal_eval(stmt.named_args) independently.  All enumerations must use the same order."""
+    rep.rule("C07.R4", "argument binding: every site that pairs the keyword-argument tail of used_symbols with key names enumerates the "
+                       "keys of stmt.named_args in the same order (the producer in the def-use pass, the call-format writer, prepare_args)", 3)
+    sites = []      # (rel, func, line, klass, text)
+    for rel in (DU, SS, GSS):
+        m = model.module(rel)
+        for f in m.all_funcs():
+            dvars: Set[str] = set()
+            for n in walk_no_nested(f.node):
+                if isinstance(n, ast.Assign) and isinstance(n.targets[0], ast.Name) and isinstance(n.value, ast.Call) \
+                        and call_name(n.value) == "ast.literal_eval" and n.value.args and isinstance(n.value.args[0], ast.Attribute) \
+                        and n.value.args[0].attr == "named_args":
+                    dvars.add(n.targets[0].id)
+
+            def is_d(e) -> bool:
+                if isinstance(e, ast.Name) and e.id in dvars:
+                    return True
+                return isinstance(e, ast.Call) and call_name(e) == "ast.literal_eval" and e.args and isinstance(e.args[0], ast.Attribute) \
+                    and e.args[0].attr == "named_args"
+
+            def keys_of(e) -> bool:
+                """e enumerates the keys/items/values of the dict in its own order"""
+                if is_d(e):
+                    return True
+                if isinstance(e, ast.Call) and isinstance(e.func, ast.Attribute) and e.func.attr in ("keys", "items", "values") and is_d(e.func.value):
+                    return True
+                if isinstance(e, ast.Call) and isinstance(e.func, ast.Name) and e.func.id in ("list", "tuple", "enumerate", "iter") and e.args:
+                    return keys_of(e.args[0])
+                return False
+            seen: Set[int] = set()
+            for n in walk_no_nested(f.node):
+                if isinstance(n, ast.Call) and isinstance(n.func, ast.Name) and n.func.id == "sorted" and n.args and keys_of(n.args[0]):
+                    rev = any(k.arg == "reverse" and not (isinstance(k.value, ast.Constant) and k.value.value is False) for k in n.keywords)
+                    keyf = any(k.arg == "key" for k in n.keywords)
+                    sites.append((rel, f, n.lineno, "sorted" + ("-reverse" if rev else "") + ("-by-key" if keyf else ""), norm(n)))
+                    for x in ast.walk(n.args[0]):
+                        seen.add(id(x))
+            for n in walk_no_nested(f.node):
+                it = None
+                if isinstance(n, (ast.For, ast.comprehension)):
+                    it = n.iter
+                if isinstance(n, ast.Assign) and not is_d(n.value) and keys_of(n.value):
+                    it = n.value
+                if it is not None and id(it) not in seen and keys_of(it):
+                    sites.append((rel, f, it.lineno, "source-order", norm(it)))
+    if len(sites) < 3:
+        raise AnalysisError(f"only {len(sites)} enumeration(s) of stmt.named_args keys found (producer, call-format writer and prepare_args expected)")
+    classes = {}
+    for s_ in sites:
+        classes.setdefault(s_[3], []).append(s_)
+    major = max(classes, key=lambda k: len(classes[k]))
+    for rel, f, ln, kl, txt in sites:
+        key = f"{rel}::{f.qualname}::keyword keys enumerated as `{txt}`"
+        if len(classes) == 1:
+            rep.holds("C07.R4", key, rel, ln, f"order class `{kl}`, same at all {len(sites)} sites")
+        elif kl != major or len(classes[major]) * 2 <= len(sites):
+            others = "; ".join(f"{r}:{l} `{t}` ({k})" for r, _f, l, k, t in sites if (r, l) != (rel, ln))
+            rep.violation("C07.R4", key, rel, ln,
+                          f"this site enumerates the keyword arguments in `{kl}` order while the cooperating sites use another order ({others}): "
+                          f"with two or more keywords not written in that order, values are paired with the wrong parameter names -- a callback "
+                          f"passed by keyword is bound to the wrong parameter and its call edge is missing")
+        else:
+            rep.holds("C07.R4", key, rel, ln, f"order class `{kl}` (the majority order)")
+
+
+def _r5_per_callee_accumulation(model: RepoModel, rep, st, gss):
+    """Inside the loop over the resolved callees nothing that is used after the loop may be rebound per iteration."""
+    rep.rule("C07.R5", "per-callee results accumulate: a local assigned inside the loop over the resolved callees of a call site is not read "
+                       "after the loop (only appended/extended collections initialised before the loop are), so every callee contributes", 2)
+    for cls, rel in ((st, SS), (gss, GSS)):
+        f = cls.methods.get("compute_target_method_states")
+        if f is None:
+            continue
+        cfg = cfg_of(f.node)
+        loops = [n for n in walk_no_nested(f.node) if isinstance(n, ast.For) and isinstance(n.iter, ast.Name) and n.iter.id in f.params
+                 and "callee" in n.iter.id]
+        if not loops:
+            raise AnalysisError(f"{f.ref}: loop over the resolved callee ids not found")
+        for li, loop in enumerate(loops):
+            inside = {id(x) for x in ast.walk(loop)}
+            assigned: Dict[str, List[ast.stmt]] = {}
+            for x in ast.walk(loop):
+                if isinstance(x, (ast.Assign, ast.AugAssign, ast.AnnAssign)):
+                    tg = x.targets if isinstance(x, ast.Assign) else [x.target]
+                    for t in tg:
+                        if isinstance(t, ast.Name):
+                            assigned.setdefault(t.id, []).append(x)
+            all_defs: Dict[str, List[ast.stmt]] = {}
+            for x in walk_no_nested(f.node):
+                if isinstance(x, (ast.Assign, ast.AugAssign, ast.AnnAssign)):
+                    tg = x.targets if isinstance(x, ast.Assign) else [x.target]
+                    for t in tg:
+                        if isinstance(t, ast.Name):
+                            all_defs.setdefault(t.id, []).append(x)
+                if isinstance(x, ast.For) and isinstance(x.target, ast.Name):
+                    all_defs.setdefault(x.target.id, []).append(x)
+            bad = []
+            stmts_after = [x for x in walk_no_nested(f.node) if isinstance(x, ast.stmt) and id(x) not in inside
+                           and x.lineno > (loop.end_lineno or loop.lineno)]
+            for name, defs in sorted(assigned.items()):
+                for use_st in stmts_after:
+                    try:
+                        un = cfg.node(use_st)
+                    except Exception:
+                        continue
+                    exprs = cfg.exprs_at(un)
+                    if not any(isinstance(y, ast.Name) and y.id == name and isinstance(y.ctx, ast.Load) for e in exprs for y in ast.walk(e)):
+                        continue
+                    for d in defs:
+                        try:
+                            dn = cfg.node(d)
+                        except Exception:
+                            continue
+                        avoid = set()
+                        for od in all_defs.get(name, []):
+                            if od is d:
+                                continue
+                            try:
+                                avoid.add(cfg.node(od))
+                            except Exception:
+                                pass
+                        if cfg.path_avoiding(dn, un, avoid) is not None:
+                            bad.append((name, d, use_st))
+                            break
+                    else:
+                        continue
+                    break
+            key = f"{rel}::{cls.name}.compute_target_method_states::callee loop #{li + 1}: nothing rebound per callee is used after the loop"
+            if bad:
+                name, d, use_st = bad[0]
+                rep.violation("C07.R5", key, rel, d.lineno,
+                              f"`{norm(d)[:80]}` rebinds `{name}` on every iteration of the loop over the resolved callees, and `{name}` is read "
+                              f"after the loop (line {use_st.lineno}: `{norm(use_st)[:70]}`): only the last callee's value survives -- at a call site "
+                              f"with several possible callees the others lose their argument/parameter binding or are not scheduled")
+            else:
+                rep.holds("C07.R5", key, rel, loop.lineno,
+                          f"{len(assigned)} local(s) assigned per iteration ({', '.join(sorted(assigned))[:120]}); none reaches a read after the loop")
+
+
 # ---------------------------------------------------------------- self-test mutants
 def _t(old, new, count=1):
     return lambda src: __import__("sa.mutate", fromlist=["x"]).text_replace(src, old, new, count)
@@ -217,5 +365,15 @@ MUTANTS = [
      "does not end the loop"),
     ("paths-not-saved", GS, _t("        self.loader.save_call_paths_p3(self.path_manager.paths)\n", "        pass\n"), "call paths are saved"),
     ("callee-frame-for-caller", GS, _t("                            method_id = key.callee_id,\n", "                            method_id = key.caller_id,\n"), "callee frames come from"),
+    ("keyword-order-producer", DU, _t("            for key in sorted(args_dict.keys()):\n                args_list.append(args_dict[key])",
+                                      "            for key in args_dict:\n                args_list.append(args_dict[key])"), "keyword keys enumerated as `args_dict`"),
+    ("keyword-order-consumer", SS, _t("            keys = sorted(args_dict.keys())\n            keys_len = len(keys)", "            keys = list(args_dict.keys())\n            keys_len = len(keys)"),
+     "C07.R4"),
+    ("mapping-rebound-per-callee", GSS, _t("            current_parameter_mapping_list = []\n            self.map_arguments(args, parameters, current_parameter_mapping_list, new_call_site)\n            parameter_mapping_list.extend(current_parameter_mapping_list)",
+                                           "            parameter_mapping_list = []\n            self.map_arguments(args, parameters, parameter_mapping_list, new_call_site)"),
+     "nothing rebound per callee is used after the loop"),
+    ("callee-list-rebound", SS, _t("                callee_ids_to_be_analyzed.append(each_callee_id)\n            # prepare callee parameters\n            parameters = self.prepare_parameters(each_callee_id)\n            if config.DEBUG_FLAG:\n                util.debug(f\"parameters of callee <{each_callee_id}>: {parameters}\")\n            new_call_site",
+                                   "                callee_ids_to_be_analyzed = [each_callee_id]\n            # prepare callee parameters\n            parameters = self.prepare_parameters(each_callee_id)\n            if config.DEBUG_FLAG:\n                util.debug(f\"parameters of callee <{each_callee_id}>: {parameters}\")\n            new_call_site"),
+     "nothing rebound per callee is used after the loop"),
     ("no-interruption", GSS, _t("                interruption_flag = True,\n", "                interruption_flag = False,\n"), "interrupts with the callees"),
 ]
